@@ -13,7 +13,7 @@ from .c04 import resolve_rel
 PROPERTY = 'C20'
 RULE = ("Histories (Hypothesis rule-based state machine, JSON-replayable): objects are derived from a pool by the routes the statement names - constructor with like= / template= / Fxp(x), deepcopy(), like(), "
         "resize on a deepcopy, +,-,*,/,//,%, unary, bitwise, shifts, dispatched numpy functions and their method forms - then one object is mutated (value write, indexed write, config attribute change, "
-        "flag-raising write, reset(), appended callback) and snapshots (codes, format, status dict, config __dict__, callbacks) of ALL other objects must be unchanged; identity checks after each derivation: "
+        "flag-raising write, reset(), appended callback, overwriting the arrays returned by x(), get_val(), astype()) and snapshots (codes, format, status dict, config __dict__, callbacks) of ALL other objects must be unchanged; identity checks after each derivation: "
         "config, status, callbacks are distinct objects and value buffers do not share memory. Indexing: x[i][j]=v must write through to x (2-d, also 64+ bit words) and change nothing else. "
         "Containers: lists / nested lists / tuples / arrays of numbers and of bin/hex strings are deep-copied before construction by constructor/call/set_val/from_bin and compared after. "
         "Config: every enumerated option set to an invalid value (and numeric options to out-of-range values) through attribute, Config(...), Config.update and constructor kwargs must raise ValueError and keep the old value (exhaustive). "
@@ -21,7 +21,7 @@ RULE = ("Histories (Hypothesis rule-based state machine, JSON-replayable): objec
 ASSUMPTIONS = ['copy(), flatten()/ravel(), T and fxp_like are documented shallow copies and are outside the statement', 'core-domain formats; arrays of at most 9 elements']
 EXHAUSTIVE = False    # the whole quantifier is not enumerated; complete sub-domains are listed in EXHAUSTIVE_SUBDOMAINS
 EXHAUSTIVE_SUBDOMAINS = {'quick': ['invalid values for every validated Config option x 4 setting routes'], 'thorough': ['same']}
-REQUIRED_CLASSES = {'history:mutation-after-2-derivations': 100, 'derive:like_kw': 50, 'derive:arith': 100, 'derive:numpy': 50, 'derive:like': 50, 'mutate:config': 100,
+REQUIRED_CLASSES = {'history:mutation-after-2-derivations': 100, 'derive:like_kw': 50, 'derive:arith': 100, 'derive:numpy': 50, 'derive:like': 50, 'mutate:config': 100, 'mutate:readback-array': 100,
                     'mutate:flag': 100, 'view-write': 200, 'container:strings': 300, 'container:strings-value-mode': 150, 'config-invalid': 40}
 
 
@@ -230,6 +230,16 @@ class World:
             x.callbacks.append(Dummy())
         elif kind == 'status-direct':
             x.status['inaccuracy'] = True
+        elif kind == 'readback-array':
+            # arrays handed out by the conversions are the caller's: overwriting them must not reach the object
+            own = snapshot(x)
+            for name, how in (('call', lambda: x()), ('get_val', lambda: x.get_val()), ('astype-int', lambda: x.astype(int)), ('astype-float', lambda: x.astype(float))):
+                a = how()
+                if isinstance(a, np.ndarray) and a.ndim >= 1 and a.flags.writeable:
+                    a[...] = 99
+                    self.classes.append('mutate:readback-array')
+                    if snapshot(x) != own:
+                        raise Mismatch('mutate/readback-array/%s/value-buffer-shared-with-conversion' % name, {'fmt': list(fmt)})
         after = [snapshot(p) for p in others]
         if before != after:
             i = next(i for i in range(len(before)) if before[i] != after[i])
@@ -468,7 +478,7 @@ def op_strategies():
                                  'shape': st.sampled_from([0, 0, 3, 4, [2, 2], [2, 3]])})
     derive = st.fixed_dictionaries({'i': IDX, 'j': IDX, 'route': st.sampled_from(DERIVE_ROUTES), 'func': st.booleans(),
                                     'shifting': st.sampled_from(['expand', 'trunc', 'keep'])})
-    mutate = st.fixed_dictionaries({'i': IDX, 'kind': st.sampled_from(['value', 'index', 'config', 'flag', 'reset', 'callback', 'status-direct', 'config', 'flag']),
+    mutate = st.fixed_dictionaries({'i': IDX, 'kind': st.sampled_from(['value', 'index', 'config', 'flag', 'reset', 'callback', 'status-direct', 'config', 'flag', 'readback-array']),
                                     'rel': RELONE, 'a': IDX, 'b': IDX, 'cfg': st.sampled_from(CFG_MUT)})
     return {'new': new, 'derive': derive, 'derive#2': derive, 'derive#3': derive, 'mutate': mutate, 'mutate#2': mutate}
 
